@@ -522,9 +522,9 @@ def run_unit(ctx, proofs_ok):
     ]
     with C.Threads():
         coll = C.Collector(ctx, "C05", "sched")
-        unit = {"fjsp_jssp": fjsp_campaign(ctx, torch, rng, C.budget(ctx, 7, 40), big, coll, ""),
-                "smtwtp": smtwtp_campaign(ctx, torch, rng, [3, 4, 5] + ([4, 5, 6] if big else []), coll, ""),
-                "ffsp": ffsp_campaign(ctx, torch, rng, C.budget(ctx, 7, 36), big, coll, "")}
+        unit = {"fjsp_jssp": fjsp_campaign(ctx, torch, rng, C.budget(ctx, 7, 100), big, coll, ""),
+                "smtwtp": smtwtp_campaign(ctx, torch, rng, [3, 4, 5] + ([3, 4, 4, 5, 5, 6, 6] if big else []), coll, ""),
+                "ffsp": ffsp_campaign(ctx, torch, rng, C.budget(ctx, 7, 80), big, coll, "")}
         dis = sum(u["disagreements"] for u in unit.values())
         new = [s for s in coll.best if s not in (SIG_ND % "jssp", SIG_ND % "fjsp", SIG_FFSP_WAIT)]
         if (dis or not proofs_ok or any("C05_sched" in b for b in ctx.broken)) and not new:
